@@ -101,6 +101,9 @@ class C03(Check):
                     expr = rng.choice([f"{t}()", f"{t}(1, 2)", f"{t}(1, k=2)", f"{t.upper()}(3)", f"{t}(1 + 1)", f"ghost(1)",
                                        f"{t}((1).real)", f"{t}(**{{'a': 1}})", f"abs({t})", f"{t}", "1 + 1", f" {t}(0)"])
                     ops.append({"op": "expr", "expr": expr, "pathway": rng.choice([None, None, "tool", "math"])})
+                elif k < 0.62:
+                    # read-only API calls: must not change what is allowed or registered
+                    ops.append({"op": "observe", "what": rng.choice(["stats", "list", "schemas", "repair", "all"])})
                 elif k < 0.8:
                     ops.append({"op": "call", **self._call(rng, names)})
                 else:
@@ -144,6 +147,22 @@ class C03(Check):
                 m.engulf_tool(t)
                 steps.append({"op": "reg"})
                 continue
+            if op["op"] == "observe":
+                w = op["what"]
+                try:
+                    if w in ("stats", "all"):
+                        m.get_statistics()
+                    if w in ("list", "all"):
+                        m.list_tools()
+                    if w in ("schemas", "all"):
+                        m.export_tool_schemas()
+                    if w in ("repair", "all"):
+                        m.repair(0.0)
+                        m.get_efficiency(); m.get_ros_level()
+                    steps.append({"op": "reg"})
+                except BaseException as e:  # noqa
+                    steps.append({"op": "observe", "code": 2, "raised": repr(e), "invoked": [], "requested": []})
+                continue
             registry = {t.name: t for t in rec.tools}   # latest wins
             raised = None
             if op["op"] == "expr":
@@ -174,6 +193,7 @@ class C03(Check):
                                              (getattr(registry.get(e[1]), "required_capabilities", None)
                                               or getattr(registry.get(e[1]), "capabilities", None) or set())))
                                       for e in new if e[0] == "tool"],
+                          "stale": [e[1] for e in new if e[0] == "tool" and len(e) > 5 and e[5] is not registry.get(e[1])],
                           "requested": self._requested(op, registry)})
         return obs, {"rec": rec, "steps": steps}
 
@@ -199,6 +219,8 @@ class C03(Check):
         for op in case["ops"]:
             if op["op"] == "reg":
                 hops.append(f"(HRegister {MC.toolspec_coq(rec, next(stubs))})")
+            elif op["op"] == "observe":
+                continue
             elif op["op"] == "expr":
                 hops.append(f"(HExpr {MC.menv_coq(rec, op['expr'], op['pathway'], True)})")
             elif op["op"] == "call":
@@ -229,15 +251,16 @@ class C03(Check):
     def monitor(self, case, obs, trace):
         if trace.get("harness_error"):
             return Violation("C03/harness", str(trace))
-        allowed = None if case["allowed"] is None else set(a % 4 for a in case["allowed"])
         ncaps = len(trace["rec"].caps)
-        if case["allowed"] is not None:
-            allowed = set(a % ncaps for a in case["allowed"])
+        allowed = None if case["allowed"] is None else set(a % ncaps for a in case["allowed"])
         for i, st in enumerate(trace["steps"]):
             if st["op"] == "reg":
                 continue
             if st["raised"]:
                 return Violation("C03/raises", f"operation {i} ({st['op']}) raised {st['raised']}")
+            if st.get("stale"):
+                return Violation("C03/unregistered-tool-ran",
+                                 f"operation {i} ({st['op']}) executed a tool object that is no longer the one registered under {st['stale']}")
             for name, caps in st["invoked"]:
                 if allowed is not None and not set(caps) <= allowed:
                     return Violation("C03/disallowed-tool-ran",
